@@ -217,7 +217,7 @@ def r06_4_rk(cx):
             if filt is not None:
                 # the comparison lives in a `filter` predicate: it must be hash-of-entry == window hash and nothing else
                 f = filt[2][1]
-                cb = cx.facts.bodies.get(f[2]) if f[0] == 'agg' and f[1] == 'closure' else None
+                cb = _closure_body(cx, f)
                 fr = [x for x in summarize(cx.facts, cb) if x.end == 'return'] if cb is not None else []
                 good = len(fr) == 1 and canon(fr[0].ret)[0] == 'op' and canon(fr[0].ret)[1] == 'Eq' and not fr[0].conds
                 if not good or ver is None:
@@ -229,3 +229,14 @@ def r06_4_rk(cx):
                 whyb = whyb or 'an entry is verified although its hash was not compared equal'
     cx.report('R06.4', b, 'bucket-exhausted', whyb is None, 'every entry of the bucket is examined; entries are skipped only on a hash mismatch' if whyb is None else whyb)
     cx.report('R06.4', b, 'first-verified', why is None, 'Rabin-Karp returns the first verified pattern of the bucket (bucket order = semantic order)' if why is None else why)
+
+
+def _closure_body(cx, f):
+    """body of a closure value, with helpers that did not exist on the reference tree spliced in"""
+    if not (f[0] == 'agg' and f[1] == 'closure'):
+        return None
+    cb = cx.facts.bodies.get(f[2])
+    if cb is None:
+        return None
+    from acverif.inline import inlined_body
+    return inlined_body(cx.facts, cb)
